@@ -621,3 +621,98 @@ Proof.
   intros Hws H. unfold group in H.
   exact (group_loop_segments at_ ws ms Hws ms [] [] [] false _ _ _ eq_refl (Forall_nil _) (Forall_nil _) H).
 Qed.
+
+(* ---------- LineStringAt in general (no annotation hypothesis) ---------- *)
+Lemma lsat_loop_general t : forall us ns pend,
+  all_in_range t (length ns) us = true ->
+  exists ns' p, apply_loop upd_node t us ns pend = LDone ns' p /\ length ns' = length ns /\
+                lsat_loop false t us (map node_point ns) = Some (map node_point ns').
+Proof.
+  induction us as [|u r IH]; intros ns pend Hok.
+  - exists ns, pend. cbn. auto.
+  - cbn in Hok. apply andb_prop in Hok as [Hu Hr]. cbn [apply_loop lsat_loop].
+    rewrite map_length. destruct (t <? u_ts u) eqn:El.
+    + apply IH; assumption.
+    + cbn in Hu. apply andb_prop in Hu as [H0 H1].
+      replace (Z.of_nat (length ns) <=? u_index u) with false by lia.
+      replace (u_index u <? 0) with false by lia.
+      set (ns1 := update_nth (Z.to_nat (u_index u)) (upd_node u) ns).
+      assert (Hl1 : length ns1 = length ns) by apply update_nth_length.
+      rewrite <- Hl1 in Hr.
+      destruct (IH ns1 pend Hr) as (ns' & p & Hd & Hl' & Hls).
+      exists ns', p. repeat split; [exact Hd|lia|].
+      rewrite <- Hls. f_equal. unfold ns1. symmetry.
+      apply map_update_nth. intro x. reflexivity.
+Qed.
+
+Lemma line_string_at_general_lemma t ns us :
+  all_in_range t (length ns) us = true ->
+  exists ns' p, way_apply t ns us = AOk ns' p /\
+                line_string_at t ns us = Some (keep_annotated ns (map node_point ns')).
+Proof.
+  intro Hok. destruct (lsat_loop_general t us ns [] Hok) as (ns' & p & Hd & Hl & Hls).
+  exists ns', p. unfold way_apply, apply_updates_up_to, line_string_at, line_string_at_gen.
+  rewrite Hd, Hls. split; reflexivity.
+Qed.
+
+(* ---------- a Less-sorted permutation has a unique key sequence ---------- *)
+Lemma sorted_perm_unique_gen {K} (le : K -> K -> Prop) :
+  (forall a b, le a b -> le b a -> a = b) ->
+  forall k1 k2, Permutation k1 k2 -> StronglySorted le k1 -> StronglySorted le k2 -> k1 = k2.
+Proof.
+  intros Hanti. induction k1 as [|a r1 IH]; intros k2 Hp H1 H2.
+  - apply Permutation_nil in Hp. subst. reflexivity.
+  - destruct k2 as [|b r2]; [apply Permutation_sym, Permutation_nil in Hp; discriminate|].
+    apply StronglySorted_inv in H1 as [Hs1 Ha]. apply StronglySorted_inv in H2 as [Hs2 Hb].
+    rewrite Forall_forall in Ha, Hb.
+    assert (Hab : a = b).
+    { assert (Hina : In a (b :: r2)) by (eapply Permutation_in; [exact Hp|left; reflexivity]).
+      assert (Hinb : In b (a :: r1)) by (eapply Permutation_in; [apply Permutation_sym; exact Hp|left; reflexivity]).
+      destruct Hina as [E|Hina]; [symmetry; exact E|].
+      destruct Hinb as [E|Hinb]; [exact E|].
+      apply Hanti; [exact (Ha b Hinb)|exact (Hb a Hina)]. }
+    subst b. f_equal. apply IH; [|exact Hs1|exact Hs2].
+    eapply Permutation_cons_inv. exact Hp.
+Qed.
+
+Lemma sorted_map {A K} (R : A -> A -> Prop) (le : K -> K -> Prop) (key : A -> K) l :
+  (forall a b, R a b -> le (key a) (key b)) ->
+  StronglySorted R l -> StronglySorted le (map key l).
+Proof.
+  intros HR. induction 1 as [|a l Hs IH Hall]; cbn; constructor; [exact IH|].
+  rewrite Forall_map. eapply Forall_impl; [|exact Hall]. intros b Hb. exact (HR a b Hb).
+Qed.
+
+Definition key_index (u : update) : Z * Z := (u_index u, u_ts u).
+Definition lex_le (a b : Z * Z) : Prop := fst a < fst b \/ (fst a = fst b /\ snd a <= snd b).
+
+Lemma less_ts_le a b : less_ts b a = false -> u_ts a <= u_ts b.
+Proof. unfold less_ts. lia. Qed.
+
+Lemma sorted_ts_keys_unique l1 l2 :
+  Permutation l1 l2 -> sorted_for less_ts l1 -> sorted_for less_ts l2 ->
+  map u_ts l1 = map u_ts l2.
+Proof.
+  intros Hp H1 H2. apply (sorted_perm_unique_gen Z.le).
+  - intros a b Hab Hba. lia.
+  - apply Permutation_map. exact Hp.
+  - exact (sorted_map _ Z.le u_ts _ less_ts_le H1).
+  - exact (sorted_map _ Z.le u_ts _ less_ts_le H2).
+Qed.
+
+Lemma less_index_lex a b : less_index b a = false -> lex_le (key_index a) (key_index b).
+Proof.
+  unfold less_index, lex_le, key_index. cbn [fst snd].
+  destruct (u_index b =? u_index a) eqn:E; cbn; lia.
+Qed.
+
+Lemma sorted_index_keys_unique l1 l2 :
+  Permutation l1 l2 -> sorted_for less_index l1 -> sorted_for less_index l2 ->
+  map key_index l1 = map key_index l2.
+Proof.
+  intros Hp H1 H2. apply (sorted_perm_unique_gen lex_le).
+  - intros [a1 a2] [b1 b2]. unfold lex_le. cbn. intros Hab Hba. f_equal; lia.
+  - apply Permutation_map. exact Hp.
+  - exact (sorted_map _ lex_le key_index _ less_index_lex H1).
+  - exact (sorted_map _ lex_le key_index _ less_index_lex H2).
+Qed.
